@@ -12,8 +12,10 @@ RULE = ("BFS over histories on 2-3 files of mutators (incl. clear/reset as FIRST
         "reported size <= capacity; size == 0 when no context is active; under default/huge capacity size == sum of encoded "
         "bytes of the files in the buffer (serialized) / number of buffered files a mutator touched (shared-memory); size == "
         "recomputation from the entry table when introspectable; capacity == the model's (restored at exits); reads and "
-        "final files equal the reference (a forced flush loses nothing); non-trivial = distinct reached states")
-BOUNDS = {"quick": "2 files; depth 5 MemoryBufferedJSONDict, depth 4 BufferedJSONDict and MemoryBufferedJSONList, depth 3 BufferedJSONList",
+        "final files equal the reference (a forced flush loses nothing); non-trivial = distinct reached states; plus error "
+        "paths: every environment call inside a flushing / buffered window fails once with every applicable errno, then size 0, "
+        "nothing buffered, capacity as before and a consistent later session are required")
+BOUNDS = {"quick": "fault cases: 10 windows x 3 classes; 2 files; depth 5 MemoryBufferedJSONDict, depth 4 BufferedJSONDict and MemoryBufferedJSONList, depth 3 BufferedJSONList",
           "thorough": "2 files depth 6 all 8 classes; 3 files depth 5"}
 ASSUMPTIONS = ["the exact-recomputation oracle reads Class._buffer if it exists (skipped with a note if the layout changes)"]
 
@@ -187,12 +189,192 @@ def plan(tier, seed):
         if depth >= 6:
             kw["max_transitions"] = 50000
         tasks += seqcheck.split(4 if depth <= 3 else (8 if depth == 4 else 32), level=2, **kw)
+    fc = ("BufferedJSONDict", "MemoryBufferedJSONDict", "BufferedJSONList") if tier == "quick" else \
+        [c for fam in env.BUFFERED_FAMILIES for c in env.JSON_FAMILIES[fam]]
+    for c in fc:
+        for nm in fault_scenarios(c):
+            tasks.append({"kind": "fault", "label": "%s/fault/%s" % (c, nm), "clsname": c, "scenario": nm})
     return tasks
 
 
+# --------------------------------------------------------------------------------------
+# Accounting on error paths: one environment call of a flushing / buffered operation fails
+# --------------------------------------------------------------------------------------
+# The BFS above only meets the errors an outside writer can provoke.  Here every environment call (open, read,
+# write, close, os.replace, os.stat) made inside a window - leaving a context, a capacity-forced flush, a
+# buffered operation - is made to fail once with every applicable errno; afterwards the remaining contexts are
+# left and the accounting must be back to its resting state: size 0, nothing buffered, capacity as before, and a
+# later ordinary buffered session shows what is on disk and ends at size 0 again.
+
+import errno as _errno
+
+FAULT_ERRORS = {
+    "open-r": (_errno.EACCES, _errno.EIO),
+    "read": (_errno.EIO,),
+    "open-w": (_errno.EACCES, _errno.ENOSPC),
+    "write": (_errno.ENOSPC,),
+    "close": (_errno.EIO,),
+    "replace": (_errno.EACCES,),
+    "stat": (_errno.EACCES, _errno.ENOTDIR),
+}
+
+
+def fault_scenarios(clsname):
+    kind_ = env.kind_of(clsname)
+    c = caps(clsname)
+    w = (lambda o, v: ("op", o, "setitem", ("w", v))) if kind_ == "dict" else (lambda o, v: ("op", o, "append", (v,)))
+    rd = lambda o: ("op", o, "call", ())
+    rs = lambda o: ("op", o, "reset", ({"r": 1} if kind_ == "dict" else [9, 9],))
+    return {
+        "cls-exit": ((("enter_cls", None), w(0, 1), w(1, 2)), (("exit_cls",),)),
+        "cls-exit-1readonly": ((("enter_cls", None), w(0, 1), rd(1)), (("exit_cls",),)),
+        "obj-exit": ((("enter", 0), w(0, 1)), (("exit", 0),)),
+        "obj-in-cls-exit": ((("enter_cls", None), ("enter", 0), w(0, 1), w(1, 2), ("exit", 0)), (("exit_cls",),)),
+        "forced-by-setcap": ((("enter_cls", None), w(0, 1), w(1, 2)), (("setcap", c["tiny"]),)),
+        "forced-by-write": ((("enter_cls", c["mid"]), w(0, 1)), (w(1, 2),)),
+        "buffered-first-write": ((("enter_cls", None),), (w(0, 1),)),
+        "buffered-first-read": ((("enter_cls", None),), (rd(0),)),
+        "buffered-first-reset": ((("enter_cls", None),), (rs(0),)),
+        "second-write": ((("enter_cls", None), w(0, 1)), (w(0, 2), w(1, 3))),
+    }
+
+
+def run_fault_case(clsname, scn, fail):
+    """-> dict(calls, raised, problems)"""
+    from .. import fault
+    kind_ = env.kind_of(clsname)
+    pre, window = scn
+    cfg = seq.Config(clsname, initial=(INIT[kind_], INIT[kind_]), objects=(0, 1))
+    world = seq.World(cfg)
+    k = world.klass
+    problems = []
+    cap0 = k.get_buffer_capacity()
+    try:
+        for ev in pre:
+            oc = world.apply(ev)
+            if oc and oc[0] == "exc":
+                return {"calls": [], "raised": False, "problems": [("probe-error", "pre event %r raised %r" % (ev, oc[1]))]}
+        hooks = fault.Hooks(fail=fail)
+        raised = False
+        hooks.install()
+        try:
+            hooks.active = True
+            for ev in window:
+                if ev[0] == "op":
+                    try:
+                        model.impl_call(world.handle_objs[ev[1]], ev[2], ev[3], world.mk_synced)
+                    except Exception:  # noqa: BLE001
+                        raised = True
+                else:
+                    oc = world.apply(ev)
+                    raised = raised or bool(oc and oc[0] == "exc")
+        finally:
+            hooks.active = False
+            hooks.uninstall()
+        result = {"calls": hooks.calls, "raised": raised, "problems": problems}
+        if fail is None:
+            return result
+        # leave whatever is still entered; a flush may legitimately raise again (it still has a conflict / the error
+        # made it give up) - the accounting afterwards is what is judged
+        for o in world.objects:
+            b = getattr(o, "buffered", None)
+            n = 0
+            while b is not None and b and n < 5:
+                n += 1
+                try:
+                    b.__exit__(None, None, None)
+                except Exception:  # noqa: BLE001
+                    pass
+        while world.cls_ctx:
+            try:
+                world.cls_ctx.pop().__exit__(None, None, None)
+            except Exception:  # noqa: BLE001
+                pass
+        if any(ev[0] == "setcap" for ev in window):
+            k.set_buffer_capacity(cap0)
+        size = k.get_current_buffer_size()
+        if size != 0:
+            problems.append(("nonzero-idle", "reported size %r with no context active" % size))
+        if k.backend_is_buffered():
+            problems.append(("still-buffered", "backend_is_buffered() with no context active"))
+        if k.get_buffer_capacity() != cap0:
+            problems.append(("capacity", "capacity %r, was %r before" % (k.get_buffer_capacity(), cap0)))
+        try:
+            with k.buffer_backend():
+                for o, obj in enumerate(world.objects):
+                    got = model.to_plain(obj())
+                    want = world.resources[o].read()
+                    if not model.exact_eq(got, want):
+                        problems.append(("stale-later-session", "a later buffered session shows %r for object %d, the file holds %r" % (got, o, want)))
+                mid = k.get_current_buffer_size()
+                fresh_want = None
+                if not env.is_memory_buffered(clsname):
+                    fresh_want = sum(len(json.dumps(world.resources[o].read()).encode()) for o in range(len(world.objects)))
+                    # the files are re-encoded by the library on load; compare with the bytes actually on disk as well
+                    alt = sum(len(world.resources[o].read_bytes() or b"") for o in range(len(world.objects)))
+                    if mid not in (fresh_want, alt):
+                        problems.append(("size-mismatch", "a later read-only session reports size %r, the two files account for %r" % (mid, alt)))
+                elif mid != 0:
+                    problems.append(("size-mismatch", "a later read-only session reports size %r (no file modified)" % mid))
+        except Exception as e:  # noqa: BLE001
+            problems.append(("later-session-error", "a later ordinary buffered session raised %s: %s" % (type(e).__name__, e)))
+        if k.get_current_buffer_size() != 0:
+            problems.append(("nonzero-idle", "size %r after the later session" % k.get_current_buffer_size()))
+        return result
+    finally:
+        seq._teardown(world)
+
+
+def run_fault_task(task):
+    from .. import isolate
+    from ..runner import new_result
+    env.lib()
+    c = task["clsname"]
+    scn = fault_scenarios(c)[task["scenario"]]
+
+    def handler(fail):
+        r = run_fault_case(c, scn, fail)
+        return r, bool(r["problems"])
+
+    server = isolate.Server(handler)
+    res = new_result()
+    try:
+        base = server.call(None)
+        if base["problems"]:
+            res["errors"].append("%s: fault-free run has problems: %r" % (task["label"], base["problems"]))
+            return res
+        raisedn = 0
+        for idx, kind_ in enumerate(base["calls"]):
+            for err in FAULT_ERRORS.get(kind_, ()):
+                r = server.call((idx, err))
+                res["evaluations"] += 1
+                res["transitions"] += 1
+                raisedn += 1 if r["raised"] else 0
+                for pk, detail in r["problems"]:
+                    res["violations"].append({
+                        "signature": "%s|%s/fault|%s|%s:%s|%s" % (PROPERTY, c, task["scenario"], kind_, _errno.errorcode.get(err, err), pk),
+                        "detail": "%s with env call #%d (%s) failing with %s: %s" % (task["scenario"], idx, kind_, _errno.errorcode.get(err, err), detail),
+                        "replay": {"engine": "c15fault", "module": __name__, "clsname": c, "scenario": task["scenario"],
+                                   "history": [idx, err]}})
+        res["nontrivial"] = raisedn
+        res["states"] = len(base["calls"])
+        res["samples"] = [{"class": c, "scenario": task["scenario"], "env_calls": base["calls"][:16], "fault_cases": res["evaluations"]}]
+        res["outcomes"] = {"fault-cases:raised": raisedn, "fault-cases:absorbed": res["evaluations"] - raisedn}
+    finally:
+        server.close()
+    return res
+
+
 def run_task(task):
+    if task.get("kind") == "fault":
+        return run_fault_task(task)
     return seqcheck.run_seq_task(sys.modules[__name__], task)
 
 
 def replay(doc):
+    if doc.get("engine") == "c15fault":
+        env.lib()
+        idx, err = doc["history"]
+        r = run_fault_case(doc["clsname"], fault_scenarios(doc["clsname"])[doc["scenario"]], (idx, err))
+        return r["problems"]
     return seqcheck.replay_seq(doc)
